@@ -89,3 +89,30 @@ Theorem C14_chain_from_steps : forall (allowed : unit_mode -> Prop),
     delay_close (delay_ms (switch_chain_Q r l)) (delay_ms r).
 Proof. exact chain_from_steps. Qed.
 Print Assumptions C14_chain_from_steps.
+
+(* [Q, registers within the documented ranges] ALL SIX transitions (and the three switches to
+   the mode in force): after `units X` the registers are again within the documented ranges, a
+   following `set` transmits the same colour (as colours: component-wise with hue 0 = 65535, or
+   both black, or both without saturation and equally bright) and the same duration, and the
+   pending delay is the same (or a delay below 1/131072 ms was dropped) *)
+Theorem C14_switch_preserves_transmission_Q : forall from to (r : regs Q),
+  r_mode r = from -> valid_regs r ->
+  valid_regs (switch_Q r to) /\
+  sent_rel (set_transmits_Q (switch_Q r to)) (set_transmits_Q r) /\
+  delay_close (delay_ms (switch_Q r to)) (delay_ms r).
+Proof. exact switch_preserves_transmission_Q. Qed.
+Print Assumptions C14_switch_preserves_transmission_Q.
+
+(* [Q] ... and so does every chain of `units` statements, of any length *)
+Theorem C14_switch_preserves_transmission_chain : forall (l : list unit_mode) (r : regs Q),
+  valid_regs r ->
+  valid_regs (switch_chain_Q r l) /\
+  sent_rel (set_transmits_Q (switch_chain_Q r l)) (set_transmits_Q r) /\
+  delay_close (delay_ms (switch_chain_Q r l)) (delay_ms r).
+Proof. exact switch_preserves_transmission_chain. Qed.
+Print Assumptions C14_switch_preserves_transmission_chain.
+
+(* the hypotheses are satisfiable: the documentation's example registers are in range *)
+Example C14_valid_regs_example :
+  valid_regs (mkregs (120 # 1) (100 # 1) (100 # 1) (2500 # 1) (0 # 1) (0 # 1) (0 # 1) (3 # 2) (3 # 2) LOGICAL)%Q.
+Proof. unfold valid_regs; simpl. repeat split; discriminate. Qed.
